@@ -11,6 +11,12 @@ import decode_family as df
 from common import Report, workdir
 
 PID = "C12"
+# every function kind with plain and with star / closure / nested headers, plain ones first: the cold pass encodes a
+# plain generator before any other generator has been encoded in the process, the warm pass after all of them
+KINDS_SRC = ("def g0(a):\n    yield a\nasync def c0(a):\n    return a\nasync def ag0(a):\n    yield a\n"
+             "def g1(a, *b, **c):\n    yield a\nasync def c1(*a, k=1, **kw):\n    return a\nasync def ag1(*a):\n    yield a\n"
+             "def outer(x):\n    def g2():\n        yield x\n    async def c2():\n        return x\n"
+             "    async def ag2(*y):\n        yield x\n    return g2, c2, ag2\n")
 
 
 def run(tier: str, rep: Report, prefixes=("P12.",), pid=PID):
@@ -74,7 +80,7 @@ def run(tier: str, rep: Report, prefixes=("P12.",), pid=PID):
         pf = str(wd / f"prod-{v}.ndjson")
         prod = Worker(v)
         try:
-            prod.req("jsonw.produce", path=pf, terms=cwterms, sources=[{"id": "basic", "src": "x = 1\ny = [lambda: 0, 2.5]\n"}],
+            prod.req("jsonw.produce", path=pf, terms=cwterms, sources=[{"id": "basic", "src": "x = 1\ny = [lambda: 0, 2.5]\n"}, {"id": "kinds", "src": KINDS_SRC}],
                      ladder=[1, 2, 5, 20, 50, 80, 99, 100, 101, 102, 120, 150], bad=True)
         finally:
             prod.close()
